@@ -2035,15 +2035,16 @@ class mulgrid(object):
                     poly = col.polygon
                     pts = line_polygon_intersections(poly, line)
                     if len(pts) > 0:
-                        if col == start_col:
-                            pts = [line[0], pts[-1]]
-                        elif col == end_col:
-                            pts = [pts[0], line[-1]]
-                        din, dout = track_dist(pts[0]), track_dist(pts[-1])
+                        if col == start_col: pts = [line[0]] + pts
+                        if col == end_col: pts = pts + [line[-1]]
                         col_tol = max(col.side_lengths) * tol
-                        if abs(dout - din) > col_tol:
-                            track.append((col, pts[0], pts[-1]))
-                            dist.append(din)
+                        # (a non-convex column can be entered more than once)
+                        for p0, p1 in zip(pts[:-1], pts[1:]):
+                            din, dout = track_dist(p0), track_dist(p1)
+                            if abs(dout - din) > col_tol and \
+                               col.contains_point(0.5 * (p0 + p1)):
+                                track.append((col, p0, p1))
+                                dist.append(din)
 
         sortindex = np.argsort(np.array(dist))
         track = [track[i] for i in sortindex]
